@@ -301,8 +301,13 @@ class C18(Profile):
 
     def gen(self, rng, tier):
         prog = gen_program(rng)
-        return {'config': {'backend': 'dict', 'users': [USER],
-                           'bad_command_limit': 0, 'buggify': []},
+        from .common import backends
+        backend = rng.choice(backends(('dict', 'dict', 'dict', 'maildir')))
+        cfg_extra = {'layout': rng.choice(['++', 'fs'])} \
+            if backend == 'maildir' else {}
+        return {'config': dict({'backend': backend, 'users': [USER],
+                                'bad_command_limit': 0, 'buggify': []},
+                               **cfg_extra),
                 'a': spell(prog, rng, True), 'b': spell(prog, rng, False),
                 'values': roundtrip_values(rng), 'steps': []}
 
@@ -312,7 +317,7 @@ class C18(Profile):
         viol = []
 
         def violate(clause, detail, **sig):
-            sig.setdefault('backend', 'dict')
+            sig.setdefault('backend', case['config'].get('backend', 'dict'))
             viol.append(Violation(property='C18', clause=clause,
                                   detail=detail, sig=sig, step=0, seq=0))
         ta, tb = ra['transcript'], rb['transcript']
